@@ -360,6 +360,10 @@ def iExpr (C : Ctx) (P : Parts) (D : Dom) (rec : Oracle) (nd : CNode) (L : Local
       | .sym (.fn f) => do
         let v ← callCallee P rec ⟨P.function, f, none⟩ (pos.map L.get) (some kws)
         pure (.val v)
+      | .sym (.cls kl) =>
+        -- Python instantiates the class (`A()` delivers a detached instance, `A(x: 1)` a TypeError): no counterpart in the
+        -- reference semantics; flagged, never equated
+        fail ("OUTSIDE THE MODEL: the class " ++ kl ++ " is called")
       | _ => fail "call of something that is not callable"
     | _ => fail "** of something that is not a dict"
   | .property v =>
@@ -782,7 +786,7 @@ theorem implicit_classOp_call_eq (C : Ctx) (u : String → Option Sym) (rec : Or
 
 theorem class_call_eq (C : Ctx) (u : String → Option Sym) (rec : Oracle) (ns name : String)
     (args : List (String × Expr)) (f : Callable)
-    (hnb : findCallable C (fun f => f.kind = .bridge ns ∧ f.name = name) = none) (hcls : (findClass C ns).isSome = true)
+    (hcls : (findClass C ns).isSome = true)
     (hc : findCallable C (fun f => f.kind = .classOp ns ∧ f.name = name) = some f) :
     evalStep C rec (.call (.classOp ns) name args) =
       handlerE C gen (domOf C u) rec (invNode C gen (domOf C u) rec [("key_letter", ns), ("action_name", name)] none args)
@@ -791,7 +795,7 @@ theorem class_call_eq (C : Ctx) (u : String → Option Sym) (rec : Oracle) (ns n
     iFind_class _ _ _ _ (by simp [domOf]) (by simp [domOf, hcls]) (by simp [domOf, hcls])
   have hfn : gen.opCls = mk_operation_class_based := rfl
   have hk := classOp_kind hc
-  cshape [accept_ClassInvocationNode, invNode, hfind, resolveNs, hnb, hc, hk, hfn, call_opCls_eq, getattrSym,
+  cshape [accept_ClassInvocationNode, invNode, hfind, hc, hk, hfn, call_opCls_eq, getattrSym,
     classAttr]
   rw [paramList_eq C gen (domOf C u) rec args]; simp only [handlerK, bind_assoc]; rfl
 
